@@ -186,6 +186,23 @@ func (a *act) safeSpec(c *Clause, env *SEnv, st *State) string {
 // loopFrames: with a loopmodifies clause, heap arrays written in the loop keep the loop-entry contents at every
 // object that existed at loop entry and is not listed.
 func (a *act) loopFrames(li *loopInfo, st *State) []string {
+	if li.spec != nil && li.spec.FreshOnly {
+		// declared: the loop only modifies objects allocated after function entry
+		var out []string
+		writes, _ := a.loopWrites(li)
+		for _, name := range sortedKeys(writes) {
+			if strings.HasPrefix(name, "$") {
+				continue
+			}
+			srt := writes[name]
+			if k, _, isArr := splitArr(srt); !isArr || k != SRef {
+				continue
+			}
+			out = append(out, fmt.Sprintf("(forall ((o Ref)) (! (=> (< (epoch o) %s) (= (select %s o) (select %s o))) :pattern ((select %s o))))",
+				a.fx.nowEntry, a.fx.sv(st, name, srt), a.fx.sv(li.entryState, name, srt), a.fx.sv(st, name, srt)))
+		}
+		return out
+	}
 	if li.spec == nil || len(li.spec.Modifies) == 0 {
 		return a.defaultLoopFrames(li, st)
 	}
@@ -668,7 +685,8 @@ func (a *act) builtin(b *ssa.Builtin, c *ssa.CallCommon, args []Val, guard strin
 		na := fx.ctx.Fresh("appended", ArrS(SInt, es))
 		ls, lt := App("slen", s.T), App("slen", t.T)
 		fx.ctx.Assert(fmt.Sprintf("(forall ((i Int)) (! (=> (and (<= 0 i) (< i %s)) (= (select %s i) (select (select %s (sbase %s)) (sidx %s i)))) :pattern ((select %s i)) :pattern ((select (select %s (sbase %s)) (sidx %s i)))))", ls, na, h, s.T, s.T, na, h, s.T, s.T))
-		fx.ctx.Assert(fmt.Sprintf("(forall ((i Int)) (! (=> (and (<= 0 i) (< i %s)) (= (select %s (+ %s i)) (select (select %s (sbase %s)) (sidx %s i)))) :pattern ((select %s (+ %s i)))))", lt, na, ls, h, t.T, t.T, na, ls))
+		fx.ctx.Assert(fmt.Sprintf("(forall ((j Int)) (! (=> (and (<= %s j) (< j (+ %s %s))) (= (select %s j) (select (select %s (sbase %s)) (sidx %s (- j %s))))) :pattern ((select %s j))))", ls, ls, lt, na, h, t.T, t.T, ls, na))
+		fx.ctx.Assert(fmt.Sprintf("(forall ((i Int)) (! (=> (and (<= 0 i) (< i %s)) (= (select %s (+ %s i)) (select (select %s (sbase %s)) (sidx %s i)))) :pattern ((select (select %s (sbase %s)) (sidx %s i)))))", lt, na, ls, h, t.T, t.T, h, t.T, t.T))
 		// common case: one appended element
 		fx.ctx.Assert(Imp(Eq(lt, "1"), Eq(Sel(na, ls), Sel(Sel(h, App("sbase", t.T)), App("soff", t.T)))))
 		fx.setSV(st, hn, hs, Store(fx.sv(st, hn, hs), r, na))
